@@ -208,12 +208,17 @@ class Ctx:
                 self.record_violation(violation, case)
                 excluded.add(violation.key)
                 continue
-            except hypothesis.errors.Flaky as error:
+            except (hypothesis.errors.Flaky, hypothesis.errors.FlakyStrategyDefinition) as error:
+                # the oracle did see a violation but it does not reproduce on re-execution: the code under
+                # test carries state from one case to the next; report it, marked unstable
                 if "last" in state:
                     violation, case = state["last"]
-                    violation.sig = dict(violation.sig, flaky=True)
-                    raise HarnessError(f"flaky failure in {self.prop}/{name}: {error}\n{violation}")
-                raise HarnessError(f"flaky: {error}")
+                    violation.sig = dict(violation.sig, unstable=True)
+                    self.record_violation(violation, case)
+                    excluded.add(violation.key)
+                    excluded.add(canon({k: v for k, v in violation.sig.items() if k != "unstable"}))
+                    continue
+                raise HarnessError(f"flaky generation in {self.prop}/{name} without a violation: {error}")
             break
 
     def machine(self, machine_cls, max_examples, steps, name="machine", shrink=True, max_rounds=4):
@@ -250,6 +255,15 @@ class Ctx:
                 self.record_violation(violation, case)
                 machine_cls.excluded_keys.add(violation.key)
                 continue
+            except (hypothesis.errors.Flaky, hypothesis.errors.FlakyStrategyDefinition) as error:
+                if machine_cls.last_violation is not None:
+                    violation, case = machine_cls.last_violation
+                    violation.sig = dict(violation.sig, unstable=True)
+                    self.record_violation(violation, case)
+                    machine_cls.excluded_keys.add(violation.key)
+                    machine_cls.excluded_keys.add(canon({k: v for k, v in violation.sig.items() if k != "unstable"}))
+                    continue
+                raise HarnessError(f"flaky generation in {self.prop}/{name} without a violation: {error}")
             break
 
     # --- output ------------------------------------------------------------
@@ -456,13 +470,14 @@ def run_check(prop, tier, seed, nshards):
     if errors:
         for error in errors:
             print("HARNESS-ERROR:", error[-3000:], file=sys.stderr)
-        return 2
     if violations:
         for path_, entry in zip(replay_paths, [v for _, v in sorted(violations.items())]):
             print(f"VIOLATION property={prop} replay={os.path.relpath(path_, VERIF)}")
             print("  signature:", canon(entry["sig"]))
             print("  detail:", str(entry["detail"])[:800].replace("\n", "\n    "))
         return 1
+    if errors:
+        return 2
     if evaluations < 1 or len(nontrivial) < 2:
         print(f"HARNESS-ERROR: vacuous run (evaluations={evaluations}, nontrivial={len(nontrivial)})", file=sys.stderr)
         return 2
